@@ -292,6 +292,7 @@ var geoms = map[string]geom{
 	"small":  {"small", 17, 300},
 	"medium": {"medium", 301, 5000},
 	"large":  {"large", 33 << 10, 100 << 10},
+	"huge":   {"huge", 256 << 10, 2 << 20},
 }
 
 // relTo picks a value relative to ref: <, =, >, 1 or "0 => default".
